@@ -14,6 +14,8 @@ CFG path of the pool's own functions:
   C08.enq-inc      every hand-over to a queue/ring tier (scheduleImpl, scheduleImplPlaced,
                    enqueue_bulk, ring pushes of the bulk ring path) is dominated by an increment of
                    workRemaining_; for the bulk forms the incremented amount is the count handed on.
+  C08.inc-handoff  conversely, every `workRemaining_ += 1` is followed on every path by a hand-over to a
+                   queue/ring tier (or a compensating decrement).
   C08.fail-undo    the allocation-failure path of the bulk enqueue subtracts the amount it added.
 """
 import re
@@ -196,6 +198,24 @@ def run(R):
                     R.ob("C08.enq-inc", fn, ev, ok, "increment by 'count' dominates the hand-over of 'count' tasks" if ok else "bulk hand-over not preceded by an increment of the same count",
                          sitekey="bulk:" + ev["name"], why=WHY)
     R.need("C08.enq-inc", ne, 5, "queue/ring hand-over sites")
+
+    # ---- ... and conversely: a single-task increment is always followed by a hand-over --------------------
+    # (an increment on a path that runs the functor inline and returns is never subtracted again)
+    ni = 0
+    for fn in pool_fns:
+        for a in atomic_ops(F, fn):
+            if not (is_inc(a) and a.node.get("args") and const_val(a.node["args"][0]) == 1):
+                continue
+            ni += 1
+            def settles(p, e):
+                if is_call(e, SINKS) or is_call(e, re.compile(r"::enqueue(_bulk)?$|::try_push(_batch)?$")):
+                    return True
+                return e.get("k") == "call" and "atomic" in e and any(x.pos == p and is_dec(x) for x in atomic_ops(F, fn))
+            path = fn.path_to_exit_avoiding(a.pos, settles)
+            R.ob("C08.inc-handoff", fn, a.node, path is None, "every path after workRemaining_ += 1 hands a task to a queue/ring tier" if path is None else
+                 "workRemaining_ is incremented on a path that hands nothing to a queue (e.g. the zero-thread inline run): the count is never subtracted again", sitekey="inc1:" + fn.qname.split("::")[-1],
+                 why=WHY, path=fn.describe_path(path) if path else None)
+    R.need("C08.inc-handoff", ni, 1, "single-task increments of workRemaining_")
 
     # ---- failure undo ---------------------------------------------------------------------------------
     nf = 0
